@@ -89,6 +89,9 @@ def make(kind, st):
             return 5
         return h.asynq()
     b = B(st)
+    if kind == "batch0":          # a batch that is completed while it holds no request at all
+        st["keep"] = (b,)
+        return b
     it = It(b)
     st["keep"] = (b, it)
     return b if kind == "batch" else it
@@ -103,7 +106,7 @@ def code(e):
 
 
 def encv(kind, v):
-    if v is None and kind == "batch":
+    if v is None and kind in ("batch", "batch0"):
         return 0
     return v if isinstance(v, int) else repr(v)
 
